@@ -12,6 +12,7 @@ import (
 	"sort"
 	"strconv"
 	"sync"
+	"sync/atomic"
 	"time"
 
 	"github.com/tokenized/logger"
@@ -100,12 +101,14 @@ type Run struct {
 	inconclusive map[string]int
 	exhaustive   *bool
 	finished     bool
+	lastActivity int64 // unix nanoseconds of the last Eval/Distinct/Violate/Inconclusive/Touch
 	finishCode   int
 	stalled      bool
 }
 
 func NewRun(prop, tier string, seed int64, level string) *Run {
 	r := newRun(prop, tier, seed, level)
+	r.Touch()
 	r.StartStallWatch()
 	return r
 }
@@ -131,10 +134,15 @@ func (r *Run) Eval(n int64) {
 	r.mu.Lock()
 	r.evals += n
 	r.mu.Unlock()
+	r.Touch()
 }
+
+// Touch marks progress for the no-progress watch (stall.go).
+func (r *Run) Touch() { atomic.StoreInt64(&r.lastActivity, time.Now().UnixNano()) }
 
 // Distinct records one non-trivial case by its canonical-shape key.
 func (r *Run) Distinct(key uint64) {
+	r.Touch()
 	r.mu.Lock()
 	r.distinct[key] = struct{}{}
 	r.mu.Unlock()
@@ -182,6 +190,7 @@ func (r *Run) SetExhaustive(b bool) {
 }
 
 func (r *Run) Inconclusive(reason string) {
+	r.Touch()
 	r.mu.Lock()
 	r.inconclusive[reason]++
 	r.mu.Unlock()
@@ -199,6 +208,7 @@ func (r *Run) IsKnown(sig string) bool {
 
 // Violate records a violation. Returns true if it is a listed known finding.
 func (r *Run) Violate(v Violation) bool {
+	r.Touch()
 	r.mu.Lock()
 	defer r.mu.Unlock()
 	known := false
